@@ -3,7 +3,7 @@
 //! (every crash point, every single fault, random multi-faults), on the real code and the model.
 use crate::absarch::abstract_archive;
 use crate::hist::*;
-use crate::icept::FaultSpec;
+use crate::icept::{FaultSpec, IceptConfig};
 use crate::real::*;
 use crate::report::Report;
 use crate::treespec::*;
@@ -199,3 +199,31 @@ pub fn expected_listing(state: &[String], band: u32) -> Vec<DecEntry> {
     }
     out
 }
+
+/// A backup killed between the two micro-steps of its FIRST index hunk write: leaves band `b` with a head and
+/// a zero-length hunk 0.  Returns false if no crash point gives that state.
+pub fn die_on_first_hunk(work: &Path, arch: &Path, src: &Path, params: &BackupParams, b: u32) -> bool {
+    let scratch = work.join("scratch-arch");
+    let fresh = |scratch: &Path| {
+        if scratch.exists() {
+            std::fs::remove_dir_all(scratch).unwrap();
+        }
+        crate::hist::copy_dir(arch, scratch);
+    };
+    fresh(&scratch);
+    let dry = real_backup(&scratch, src, params, IceptConfig::default());
+    let hunk0 = format!("{}/i/00000/000000000", band_name(b));
+    for k in 0..dry.steps {
+        fresh(&scratch);
+        let _ = real_backup(&scratch, src, params, IceptConfig { crash_at: Some(k), ..Default::default() });
+        let zero = std::fs::metadata(scratch.join(&hunk0)).map(|m| m.len() == 0).unwrap_or(false);
+        if zero {
+            let _ = std::fs::remove_dir_all(&scratch);
+            let _ = real_backup(arch, src, params, IceptConfig { crash_at: Some(k), ..Default::default() });
+            return std::fs::metadata(arch.join(&hunk0)).map(|m| m.len() == 0).unwrap_or(false);
+        }
+    }
+    let _ = std::fs::remove_dir_all(&scratch);
+    false
+}
+
